@@ -1,2 +1,69 @@
-(* placeholder replaced below *)
-From Coq Require Import List.
+(* Property C05 - FunctorMap and mul_p_map return map(f, data) in input order.
+   Statements only; proofs in Proofs/FMapP.v.  Model/FMap.v is the labelled transition system of the main thread and
+   the worker processes of windpyutils/parallel/pools.py (kind = true) and parallel/maps.py + workers.py (kind = false);
+   a schedule is an arbitrary list of events, an event that is not enabled being a stutter.  The mapped function is
+   uninterpreted (a result chunk is represented by the chunk).  A history is a list of calls (input, chunk size) on
+   one FunctorMap inside one `with` block, resp. a sequence of mul_p_map calls sharing the class-level queues. *)
+From Coq Require Import ZArith List Bool Arith.
+From WPU Require Import Common.Val Model.Pool Model.FMap Proofs.FMapP.
+Import ListNotations.
+Open Scope nat_scope.
+
+(* after any schedule: no error in the main thread; the calls completed so far returned exactly their inputs, in order and
+   call by call (independence of repeated calls); when everything is over that covers every call of the history *)
+Theorem C05_results : forall cfg hist sched, Forall mact_ok hist ->
+  let s := mrun cfg (minit cfg hist) sched in
+  ms_err s = false
+  /\ (exists done rest, hist = done ++ rest /\ ms_done s = map fst done)
+  /\ (ms_main s = MmDone -> ms_done s = map fst hist).
+Proof. exact fmap_results. Qed.
+Print Assumptions C05_results.
+
+(* sorted(res, key=index) of a permutation of 0..n-1 with the right payloads is the input order (mul_p_map's last line) *)
+Theorem C05_sorted_by_index : forall (ch : nat -> list Z) l n, Permutation.Permutation (map fst l) (seq 0 n) ->
+  Forall (fun e => snd e = ch (fst e)) l -> concat (map snd (sort_by_idx l)) = concat (map ch (seq 0 n)).
+Proof. exact sort_by_idx_spec. Qed.
+Print Assumptions C05_sorted_by_index.
+
+(* workers >= 1 and a work queue bound >= 1: in every reachable unfinished state some thread or process can move *)
+Theorem C05_no_deadlock : forall cfg hist sched, mcfg_ok cfg -> Forall mact_ok hist ->
+  let s := mrun cfg (minit cfg hist) sched in ms_main s <> MmDone -> exists e, mstep cfg s e <> None.
+Proof. exact fmap_no_deadlock. Qed.
+Print Assumptions C05_no_deadlock.
+
+(* every step decreases the measure *)
+Theorem C05_measure : forall cfg hist sched e s', mcfg_ok cfg -> Forall mact_ok hist ->
+  let s := mrun cfg (minit cfg hist) sched in mstep cfg s e = Some s' -> mmu cfg s' < mmu cfg s.
+Proof. exact fmap_measure. Qed.
+Print Assumptions C05_measure.
+
+(* hence, under every scheduler that picks an enabled event whenever there is one: every call terminates, all workers are
+   stopped and joined, and the results are exactly the inputs *)
+Theorem C05_terminates : forall cfg hist pick, mcfg_ok cfg -> Forall mact_ok hist ->
+  (forall s, (exists e, menabled cfg s e) -> mstep cfg s (pick s) <> None) ->
+  let s := mdrive cfg pick (mmu cfg (minit cfg hist)) (minit cfg hist) in
+  ms_main s = MmDone /\ ms_done s = map fst hist /\ ms_err s = false.
+Proof. exact fmap_terminates. Qed.
+Print Assumptions C05_terminates.
+
+Theorem C05_scheduler_exists : forall cfg s, (exists e, menabled cfg s e) -> mstep cfg s (mpick_first cfg s) <> None.
+Proof. exact mpick_first_enabled. Qed.
+Print Assumptions C05_scheduler_exists.
+
+(* non-vacuity: data shorter than the worker count, an empty call, chunk sizes 1..3, both kinds *)
+Example C05_functor_map :
+  let cfg := mkMCfg 3 (Some 3) true in
+  let hist := [([1; 2]%Z, 1); ([], 2); ([3; 4; 5; 6; 7]%Z, 3)] in
+  let s := mdrive cfg (mpick_first cfg) (mmu cfg (minit cfg hist)) (minit cfg hist) in
+  mcfg_ok cfg /\ Forall mact_ok hist /\ ms_main s = MmDone /\ ms_done s = [[1; 2]; []; [3; 4; 5; 6; 7]]%Z.
+Proof.
+  cbv zeta. split; [split; [simpl; auto | intros c H; injection H as <-; auto]|]. split; [repeat constructor|]. vm_compute. split; reflexivity.
+Qed.
+Example C05_mul_p_map :
+  let cfg := mkMCfg 2 (Some 1) false in
+  let hist := [([5; 6; 7]%Z, 1); ([], 1); ([8]%Z, 1)] in
+  let s := mdrive cfg (mpick_first cfg) (mmu cfg (minit cfg hist)) (minit cfg hist) in
+  mcfg_ok cfg /\ Forall mact_ok hist /\ ms_main s = MmDone /\ ms_done s = [[5; 6; 7]; []; [8]]%Z.
+Proof.
+  cbv zeta. split; [split; [simpl; auto | intros c H; injection H as <-; auto]|]. split; [repeat constructor|]. vm_compute. split; reflexivity.
+Qed.
